@@ -213,13 +213,11 @@ void brngHMACStart(void* state, const octet key[], size_t key_len,
 	ASSERT(memIsDisjoint2(s, brngHMAC_keep(), key, key_len));
 	ASSERT(memIsDisjoint2(s, brngHMAC_keep(), iv, iv_len));
 	// запомнить iv
+	// (короткая синхропосылка копируется; указатель на iv_buf не сохраняется,
+	// чтобы состояние можно было копировать как фрагмент памяти)
 	if ((s->iv_len = iv_len) <= 64) 
-	{
 		memCopy(s->iv_buf, iv, iv_len);
-		s->iv = s->iv_buf;
-	}
-	else
-		s->iv = iv;
+	s->iv = iv;
 	// обработать key
 	beltHMACStart(s->state_ex + beltHMAC_keep(), key, key_len);
 	// r <- beltHMAC(key, iv)
@@ -256,7 +254,8 @@ void brngHMACStepR(void* buf, size_t count, void* state)
 		beltHMACStepA(s->r, 32, s->state_ex);
 		beltHMACStepG(s->r, s->state_ex);
 		// Y_t <- beltHMAC(key, r || iv)
-		beltHMACStepA(s->iv, s->iv_len, s->state_ex);
+		beltHMACStepA(s->iv_len <= 64 ? s->iv_buf : s->iv, s->iv_len,
+			s->state_ex);
 		beltHMACStepG(buf, s->state_ex);
 		// next
 		buf = (octet*)buf + 32;
@@ -270,7 +269,8 @@ void brngHMACStepR(void* buf, size_t count, void* state)
 		beltHMACStepA(s->r, 32, s->state_ex);
 		beltHMACStepG(s->r, s->state_ex);
 		// Y_t <- left(beltHMAC(key, r || iv))
-		beltHMACStepA(s->iv, s->iv_len, s->state_ex);
+		beltHMACStepA(s->iv_len <= 64 ? s->iv_buf : s->iv, s->iv_len,
+			s->state_ex);
 		beltHMACStepG(s->block, s->state_ex);
 		memCopy(buf, s->block, count);
 		// next
